@@ -203,6 +203,38 @@ def body_inverse(case):
     return labels
 
 
+def body_integer_energies(case):
+    """Whole-number log10 energies handed over in an integer dtype (np.full(N, 10) is an integer array; its width is the
+    platform's default integer, 32 bits on some): tau energies and exit probabilities of the same numbers given as
+    float64."""
+    from ..strategies import same_values
+
+    taus = _taus(case["version"])
+    vals = [int(v) for v in case["log_e"]]
+    n = len(vals)
+    dt = case["dtype"]
+    beta = np.array(case["beta"][:n] + [0.3] * max(0, n - len(case["beta"])), dtype=np.float64)
+    u = np.array(case["u"][:n] + [0.5] * max(0, n - len(case["u"])), dtype=np.float64)
+    le_i = np.array(vals, dtype=dt)
+    le_f = np.array(vals, dtype=np.float64)
+    with cut(f"Taus.tau_energy(log_e_nu as {dt})"):
+        e_i = np.asarray(taus.tau_energy(beta, le_i, u))
+        e_f = np.asarray(taus.tau_energy(beta, le_f, u))
+    require(same_values(e_i.astype(np.float64), e_f), f"tau energies for log10 E = {vals[:4]} given as {dt}: {e_i[:3].tolist()}, given as float64: {e_f[:3].tolist()}")
+    with cut(f"Taus.tau_exit_prob(log_e_nu as {dt})"):
+        p_i = np.asarray(taus.tau_exit_prob(beta, le_i))
+        p_f = np.asarray(taus.tau_exit_prob(beta, le_f))
+    require(same_values(p_i.astype(np.float64), p_f), f"exit probabilities for log10 E = {vals[:4]} given as {dt}: {p_i[:3].tolist()}, given as float64: {p_f[:3].tolist()}")
+    with scripted(np.full(2 * n + 8, 0.37)):
+        with cut(f"Taus.__call__(log_e_nu as {dt})"):
+            r_i = [np.asarray(x, dtype=np.float64) for x in taus(np.clip(beta, 0.0, BETA_MAX), le_i)]
+    with scripted(np.full(2 * n + 8, 0.37)):
+        r_f = [np.asarray(x, dtype=np.float64) for x in taus(np.clip(beta, 0.0, BETA_MAX), le_f)]
+    for j, (a, b) in enumerate(zip(r_i, r_f)):
+        require(same_values(a, b), f"Taus.__call__ output #{j} for log10 E = {vals[:4]} given as {dt}: {a[:3].tolist()}, given as float64: {b[:3].tolist()}")
+    return {dt} | ({"energy>=10_in_<=32_bits"} if max(vals) >= 10 and np.dtype(dt).itemsize <= 4 else set())
+
+
 def body_monotone(case):
     version = case["version"]
     k = len(case["ts"])
@@ -401,6 +433,22 @@ SUBCHECKS = [
         {"quick": 400, "thorough": 30000},
         doc="explicit u: |F(z|E,beta) - u| <= 1e-12 with own bilinear rows, z in range, clamps, batches across the 8192 buffer",
         tolerances={"F": TOL_F},
+    ),
+    SubCheck(
+        "integer_energies",
+        st.fixed_dictionaries(
+            {
+                "version": version_st,
+                "dtype": st.sampled_from(["int64", "int32", "int32", "int16", "int8", "uint8", "uint16", "uint32", "uint64"]),
+                "log_e": st.lists(st.integers(6, 12), min_size=1, max_size=12),
+                "beta": st.lists(beta_st, min_size=1, max_size=12),
+                "u": st.lists(st.floats(0.01, 0.99), min_size=1, max_size=12),
+            }
+        ),
+        body_integer_energies,
+        lambda labels: "energy>=10_in_<=32_bits" in labels,
+        {"quick": 200, "thorough": 6000},
+        doc="whole-number log10 energies in every integer dtype: tau_energy, tau_exit_prob and Taus.__call__ == the float64 call",
     ),
     SubCheck(
         "monotone",
